@@ -43,6 +43,8 @@ def gen_frame(rng, n=None, complete=True):
     df["unused"] = [rng.randrange(0, 100) for _ in range(n)]
     # a column no formula mentions, with missing values: must never matter (training or prediction)
     df["unused_nan"] = [np.nan if rng.random() < 0.3 else 1.5 for _ in range(n)]
+    # a factor with a single observed level: reduced coding = no column at all (zero-width term)
+    df["one"] = ["solo"] * n
     return scramble_index(rng, df)
 
 
@@ -126,6 +128,8 @@ def gen_formula(rng, response=None, allow_group=True, max_terms=4, extra=False):
         terms.append(gen_group(rng))
         if rng.random() < 0.3:
             terms.append(gen_group(rng))
+    if rng.random() < 0.08:
+        terms.append(rng.choice(["one", "one:x", "x:one", "one:f", "h:one", "(1 | one)", "(x | one)"]))
     rng.shuffle(terms)
     icpt = rng.choice(["", "", "", "0 + ", "1 + "])
     resp = response if response is not None else rng.choice(["y", "y", "y", "yc", "yc[yes]",
